@@ -9,5 +9,6 @@ CONSTANTS
   NT <- NumText
   NTL <- NumTextLoc
   CV <- ConvertBug
+  RV <- ReadVec
 INVARIANTS LawConvert
 CHECK_DEADLOCK FALSE
